@@ -11,6 +11,7 @@ import (
 	"github.com/milvus-io/milvus/pkg/mq/msgstream"
 
 	"github.com/zilliztech/milvus-cdc/core/api"
+	"github.com/zilliztech/milvus-cdc/core/util"
 )
 
 // VerifC06_ReaderFailure
@@ -62,5 +63,53 @@ func VerifC06_ReaderFailure() {
 			vAssert(ev.TaskID == "task-7", "C06.error-event-names-the-failing-task")
 		}
 	}
+	vReach("end")
+}
+
+// VerifC06_ReaderFailureBusyEventQueue: the same failure while the event queue shared by
+// all tasks of the target is full (the server is still working through earlier events):
+// the error report waits for room, it is not lost.
+func VerifC06_ReaderFailureBusyEventQueue() {
+	w := c01NewWorld(false)
+	for len(w.env.eventChan) < cap(w.env.eventChan) {
+		w.env.eventChan <- &api.ReplicateAPIEvent{EventType: api.ReplicateCreatePartition, TaskID: "other-task"}
+	}
+	ts := vU64("msg.ts")
+	vAssume(vAnd(ts >= 1, ts < c03Lim))
+	pos := rPos(w.srcVCh, "m0", ts)
+	pack := &msgstream.MsgPack{BeginTs: ts, EndTs: ts, Msgs: []msgstream.TsMsg{rInsert(555, 11, "p", w.srcVCh, ts, pos, 1)},
+		StartPositions: []*msgpb.MsgPosition{rPos(w.srcVCh, "start", ts)}, EndPositions: []*msgpb.MsgPosition{rPos(w.srcVCh, "end", ts)}}
+	w.env.h.handlerOpts.RetryOptions = util.GetRetryOptions(c13Retry()) // give up quickly (natively: well under a second)
+	done := make(chan struct{})
+	go func() {
+		w.env.h.innerHandleReplicateMsg(false, api.GetReplicateMsg(rSrcP, "coll", w.srcColl, pack, "task-7"))
+		close(done)
+	}()
+	// the handler gives up on the message and reports the error while the queue is still full
+	for i := 0; i < 14; i++ {
+		vQuiesce()
+	}
+	// then the server takes the queued events one after the other, until the handler is through
+	found := false
+	check := func(ev *api.ReplicateAPIEvent) {
+		if ev.EventType == api.ReplicateError {
+			found = true
+			vAssert(ev.TaskID == "task-7", "C06.error-event-names-the-failing-task")
+		}
+	}
+	finished := false
+	for !finished {
+		select {
+		case ev := <-w.env.eventChan:
+			check(ev)
+		case <-done:
+			finished = true
+		}
+	}
+	for len(w.env.eventChan) > 0 {
+		check(<-w.env.eventChan)
+	}
+	vAssert(found, "C06.error-event-is-not-lost-when-the-event-queue-is-full")
+	vAssert(len(c01Emitted()) == 0, "C06.failing-message-enqueues-nothing")
 	vReach("end")
 }
